@@ -53,13 +53,34 @@ def struct_eq(a, b):
     return z3.BoolVal(a == b)
 
 
+def digest(*vals):
+    import hashlib
+    return hashlib.md5(repr(vals).encode()).hexdigest()[:10]
+
+
+def deep(vm, v, depth=0):
+    """follow references so that a digest covers what the callee can read"""
+    if isinstance(v, Ref) and depth < 6:
+        return ('&', deep(vm, vm.deref(v), depth + 1))
+    return v
+
+
 class Env:
-    """per-path environment: event log + scripted nondeterminism"""
+    """per-path environment: event log + callbacks that are arbitrary but *functional*: the outcome (Ok/Err) and the
+    havoc values of a call are an uninterpreted function of everything the callee can read, so two executions that
+    make the same call observe the same behaviour (needed to compare an implementation with a reference run)."""
 
     def __init__(self, vm):
         self.vm = vm
         self.events = []     # (kind, detail...)
         self.ncalls = 0
+        self.outcomes = {}
+
+    def fork(self):
+        """fresh log, same callback behaviour (for a second, reference execution on the same path)"""
+        e = Env(self.vm)
+        e.outcomes = self.outcomes
+        return e
 
     def log(self, *e):
         self.events.append(e)
@@ -68,19 +89,24 @@ class Env:
     def count(self, kind):
         return sum(1 for e in self.events if e[0] == kind)
 
-    def havoc(self, ref, ty):
+    def kinds(self):
+        return [e[0] if e[0] not in ('ok', 'fail') else e[0] + ':' + e[1] for e in self.events]
+
+    def havoc(self, ref, ty, dg):
         v = self.vm.deref(ref)
         if isinstance(v, VecV):
-            self.vm.store(ref, VecV((Opaque('havoc-elem', self.vm.fresh_tag('h')),), v.kind))
-        elif isinstance(v, Opaque):
-            self.vm.store(ref, Opaque(v.ty, v.tag, v.ver + 1 + self.ncalls * 100))
+            self.vm.store(ref, VecV((Opaque('havoc-elem', dg),), v.kind))
         else:
-            self.vm.store(ref, Opaque(ty, self.vm.fresh_tag('h')))
+            self.vm.store(ref, Opaque(ty, dg))
 
-    def result(self, what):
-        """arbitrary Result<(), anyhow::Error>"""
-        k = self.vm.choose_n(2, what)
+    def result(self, what, dg):
+        """arbitrary Result<(), anyhow::Error>, functional in the call's inputs"""
         self.ncalls += 1
+        if dg in self.outcomes:
+            k = self.outcomes[dg]
+        else:
+            k = self.vm.choose_n(2, what)
+            self.outcomes[dg] = k
         if k == 0:
             self.log('ok', what)
             return OK(())
@@ -99,26 +125,28 @@ def track_callbacks(P):
 
     def apply(vm, cal, args):
         e = env(vm)
-        e.havoc(args[1], 'TA')
-        return e.result('apply')
+        dg = digest('apply', deep(vm, args[0]), deep(vm, args[1]))
+        e.havoc(args[1], 'TA', 'apply:' + dg)
+        return e.result('apply', dg)
 
     def ta_merge(vm, cal, args):
         e = env(vm)
-        e.havoc(args[0], 'TA')
-        return e.result('attr_merge')
+        dg = digest('attr_merge', deep(vm, args[0]), deep(vm, args[1]))
+        e.havoc(args[0], 'TA', 'merge:' + dg)
+        return e.result('attr_merge', dg)
 
     def optimize(vm, cal, args):
         e = env(vm)
         cls = args[1]
-        e.havoc(args[0], 'M')
-        e.havoc(args[3], 'TA')
-        e.havoc(args[4], 'obs')
+        dg = digest('optimize', *[deep(vm, a) for a in args])
         hist = vm.deref(args[2])
         while isinstance(hist, Ref):
             hist = vm.deref(hist)
-        e.log('optimize', cls.concrete(), tuple(hist.items) if isinstance(hist, VecV) else hist,
-              args[6])
-        return e.result('optimize')
+        e.havoc(args[0], 'M', 'optM:' + dg)
+        e.havoc(args[3], 'TA', 'optTA:' + dg)
+        e.havoc(args[4], 'obs', 'optObs:' + dg)
+        e.log('optimize', cls, tuple(hist.items) if isinstance(hist, VecV) else hist, args[6])
+        return e.result('optimize', dg)
 
     def send(vm, cal, args):
         env(vm).log('send', args[1])
